@@ -476,6 +476,9 @@ type seqStep struct {
 	Conn   string `json:"conn"`
 	Effect bool   `json:"effect"`
 	At     int    `json:"at"`
+	Tok    string `json:"tok"`  // own: the command carries the token; none: it carries no token
+	Link   string `json:"link"` // fresh: a new connection; same: the connection of the command before
+	Unit   string `json:"unit"` // same | other: the unit of the command before, or another unit of the verifying type
 }
 
 type seqVec struct {
@@ -531,6 +534,13 @@ func (e *env15) runSequences(qs []seqVec, seed int64) error {
 	for _, q := range qs {
 		n := len(q.Steps)
 		if n < 2 || q.Steps[0].Op != "use" || q.Steps[n-1].Op != "use" {
+			continue
+		}
+		if q.Steps[n-1].Link == "same" {
+			if err := e.runSameConn(q, seed); err != nil {
+				return err
+			}
+
 			continue
 		}
 		byShape[q.shape()] = append(byShape[q.shape()], &seqRun{q: q, first: q.Steps[0], last: q.Steps[n-1]})
@@ -621,31 +631,192 @@ func (e *env15) runSequences(qs []seqVec, seed int64) error {
 	return nil
 }
 
+// newVerifyingUnit submits a unit of the verifying type over the Unix socket and waits until it runs and has output.
+func (e *env15) newVerifyingUnit() (string, error) {
+	delete(e.cur, "verifying")
+	id, err := e.ensureUnit("verifying")
+	delete(e.cur, "verifying") // not shared with the table vectors
+
+	return id, err
+}
+
+// runSameConn: on ONE connection a command that carries a valid token (and is accepted), then a command for the same or
+// another unit that carries its own token (control: accepted) or NO token: every command is judged by its own token only.
+func (e *env15) runSameConn(q seqVec, seed int64) error {
+	a, b := q.Steps[0], q.Steps[1]
+	u1, err := e.newVerifyingUnit()
+	if err != nil {
+		return err
+	}
+	target := u1
+	var u2 string
+	if b.Unit == "other" {
+		if u2, err = e.newVerifyingUnit(); err != nil {
+			return err
+		}
+		target = u2
+	}
+	defer func() {
+		for _, u := range []string{u1, u2} {
+			if u != "" {
+				_, _ = e.d.Command("work force-release "+u, e.to)
+			}
+		}
+	}()
+	tok, _ := e.mint(10 * time.Minute)
+	line := func(cmd, unit, token string) string {
+		m := map[string]any{"command": "work", "subcommand": cmd}
+		switch cmd {
+		case "submit":
+			m["node"], m["worktype"] = "localhost", "vtype"
+		case "results":
+			m["unitid"], m["startpos"] = unit, 0
+		default:
+			m["unitid"] = unit
+		}
+		if token != "" {
+			m["signature"] = token
+		}
+		j, _ := json.Marshal(m)
+
+		return string(j)
+	}
+	k, err := ctl.Dial(a.Conn, e.d, e.m, e.to)
+	if err != nil {
+		return fmt.Errorf("cannot open %s session: %w", a.Conn, err)
+	}
+	defer k.Close()
+	e.res.count("seq_uses")
+	e.res.mu.Lock()
+	e.res.Evaluations++
+	e.res.mu.Unlock()
+	if err := k.Send([]byte(line(a.Cmd, u1, tok) + "\n")); err != nil {
+		return err
+	}
+	ra, err := k.ReadLine(e.to)
+	if err != nil {
+		e.res.inconclusive("no reply to the first command of a same-connection sequence (%s over %s): %v", a.Cmd, a.Conn, err)
+
+		return nil
+	}
+	if strings.HasPrefix(ra, "ERROR") {
+		e.res.violate(fmt.Sprintf("C15:wrongly-refused-%s-%s-verifying-valid", a.Cmd, a.Conn), fmt.Sprintf("%s over %s with a valid token was refused: %s", a.Cmd, a.Conn, trunc(ra, 160)), map[string]any{"sequence": q})
+
+		return nil
+	}
+	before, err := e.snapshot(target)
+	if err != nil {
+		return err
+	}
+	bt := ""
+	if b.Tok == "own" {
+		bt = tok
+	}
+	e.res.count("seq_uses")
+	e.res.mu.Lock()
+	e.res.Evaluations++
+	e.res.mu.Unlock()
+	lb := line(b.Cmd, target, bt)
+	if err := k.Send([]byte(lb + "\n")); err != nil {
+		return err
+	}
+	rb, err := k.ReadLine(e.to)
+	if err != nil {
+		e.res.inconclusive("no reply to the second command of a same-connection sequence (%s after %s over %s): %v", b.Cmd, a.Cmd, a.Conn, err)
+
+		return nil
+	}
+	created := ""
+	if strings.HasPrefix(rb, "Work unit created with ID ") {
+		created = strings.SplitN(strings.TrimPrefix(rb, "Work unit created with ID "), ".", 2)[0]
+		_ = k.Send([]byte("in\n"))
+		_ = k.CloseWrite()
+		_, _ = k.ReadLine(e.to)
+	}
+	k.Close()
+	time.Sleep(150 * time.Millisecond)
+	after, err := e.snapshot(target)
+	if err != nil {
+		return err
+	}
+	observed := !strings.HasPrefix(rb, "ERROR")
+	what := ""
+	switch b.Cmd {
+	case "submit":
+		for u := range after.Units {
+			if _, ok := before.Units[u]; !ok {
+				observed, what = true, "new unit "+u
+				_, _ = e.d.Command("work force-release "+u, e.to)
+			}
+		}
+	case "cancel":
+		if before.Units[target] != after.Units[target] {
+			observed, what = true, fmt.Sprintf("state %s -> %s", before.Units[target], after.Units[target])
+		}
+	case "release", "force-release":
+		if _, ok := after.Units[target]; !ok {
+			observed, what = true, "unit no longer listed"
+		}
+	}
+	if created != "" {
+		_, _ = e.d.Command("work force-release "+created, e.to)
+	}
+	e.distinct[fmt.Sprintf("sameconn|%s|%s|%s|%s|%s", a.Conn, a.Cmd, b.Cmd, b.Tok, b.Unit)] = true
+	replay := map[string]any{"sequence": q, "first": trunc(line(a.Cmd, u1, "<valid token>"), 200), "first_reply": trunc(ra, 160), "second": trunc(lb, 200), "second_reply": trunc(rb, 200), "state": what}
+	switch {
+	case observed && !b.Effect:
+		e.res.violate(fmt.Sprintf("C15:unauthorized-%s-%s-verifying-token_of_earlier_command", b.Cmd, a.Conn),
+			fmt.Sprintf("on one %s connection, after %s with a valid token, %s for %s unit WITHOUT a token took effect (reply %q; %s): a command must be judged by its own token only",
+				a.Conn, a.Cmd, b.Cmd, map[string]string{"same": "the same", "other": "another"}[b.Unit], trunc(rb, 120), what), replay)
+	case !observed && b.Effect:
+		e.res.violate(fmt.Sprintf("C15:wrongly-refused-%s-%s-verifying-valid-second-command", b.Cmd, a.Conn),
+			fmt.Sprintf("on one %s connection, after %s, %s with its own valid token was refused: %s", a.Conn, a.Cmd, b.Cmd, trunc(rb, 160)), replay)
+	case b.Effect:
+		e.res.count("seq_sameconn_own_token_accepted")
+	default:
+		e.res.count("seq_sameconn_tokenless_refused")
+	}
+
+	return nil
+}
+
 // pickSequences: quick keeps the same-command replays (5 commands x 2 connection kinds), a submit token replayed for
 // cancel / release / results, a few seeded extra pairs, two reuse-while-valid and two after-restart sequences.
 func pickSequences(qs []seqVec, seed int64) []seqVec {
 	var out []seqVec
 	rng := rand.New(rand.NewSource(seed))
 	extra := map[int]bool{}
-	for len(extra) < 4 {
+	for len(extra) < 1 {
 		extra[rng.Intn(len(qs))] = true
 	}
 	for i, q := range qs {
 		n := len(q.Steps)
 		a, b := q.Steps[0], q.Steps[n-1]
 		same := a.Cmd == b.Cmd && a.Conn == b.Conn
-		fromSubmit := a.Cmd == "submit" && a.Conn == b.Conn && (b.Cmd == "cancel" || b.Cmd == "release" || b.Cmd == "results")
+		fromSubmit := a.Cmd == "submit" && a.Conn == b.Conn && ((b.Cmd == "cancel" && a.Conn == "tcp") || (b.Cmd == "results" && a.Conn == "mesh"))
+		if b.Link == "same" {
+			// per connection kind: a tokenless command after status (every command, same unit), after cancel (other unit), after
+			// release (other unit), and two controls with an own token
+			keep := (b.Tok == "none" && ((a.Cmd == "status" && b.Unit == "same" && b.Cmd != "force-release") || (a.Cmd == "cancel" && b.Unit == "other" && b.Cmd == "release") ||
+				(a.Cmd == "release" && b.Cmd == "force-release"))) ||
+				(b.Tok == "own" && a.Cmd == "status" && b.Unit == "same" && b.Cmd == "cancel")
+			if keep {
+				out = append(out, q)
+			}
+
+			continue
+		}
 		switch q.shape() {
 		case "use,tick,use":
 			if same || fromSubmit || extra[i] {
 				out = append(out, q)
 			}
 		case "use,use":
-			if (same && a.Cmd == "results" && a.Conn == "tcp") || (a.Cmd == "submit" && b.Cmd == "cancel" && a.Conn == "mesh" && b.Conn == "mesh") {
+			if same && a.Cmd == "results" && a.Conn == "tcp" {
 				out = append(out, q)
 			}
 		case "use,tick,restart,use":
-			if (same && a.Cmd == "results" && a.Conn == "mesh") || (a.Cmd == "submit" && b.Cmd == "release" && a.Conn == "tcp" && b.Conn == "tcp") {
+			if same && a.Cmd == "results" && a.Conn == "mesh" {
 				out = append(out, q)
 			}
 		}
